@@ -648,10 +648,10 @@ func runAsm(o opts) error {
 	}
 	if o.prop == "C14" {
 		w.Viol = "asm_violations_c14"
-		menuCases(o.n, "asm-menu")
-		return w.Flush()
+		menuCases(o.n/2, "asm-menu")
+	} else {
+		menuCases(o.n/10, "asm-menu")
 	}
-	menuCases(o.n/10, "asm-menu")
 
 	// corpus: one per finding class, then the examples of instructions.texi
 	long256 := strings.Repeat("a", 256)
@@ -682,6 +682,10 @@ func runAsm(o opts) error {
 		{asmLn("UP", "1", "a"), asmLn("HALT"), asmLn("UP", "2", "b")},
 		{asmLn("NOOP")},
 		{},
+		// a batch block followed by ordinary instructions; the three-symbol DOWN form with a symbolic selector
+		{asmLn("DOWN", "foo", "1", "to_foo"), asmLn("UP", "0", "back"), asmLn("INCMP", ".", "*")},
+		{asmLn("DOWN", "foo", "k", "baz"), asmLn("MOVE", "bar")},
+		{asmLn("LOAD", "aa", "0"), asmLn("NEXT", "n", "fwd"), asmLn("PREVIOUS", "p", "prev"), asmLn("HALT"), asmLn("INCMP", "_", "0")},
 		// bytes that mean something to a formatter: 0x25 as a size, inside a size, as a length prefix
 		{asmLn("LOAD", "foo", "37")}, {asmLn("LOAD", "foo", "9472")}, {asmLn("CROAK", "37", "0")},
 		{asmLn("MOVE", strings.Repeat("n", 37)), asmLn("HALT")}, {asmLn("DOWN", strings.Repeat("n", 37), "1", "to_foo")},
